@@ -116,7 +116,30 @@ def attn_case():
       # tokens of an earlier sequence decoded on the same module before the
       # cache is initialised again for the sequence that is checked
       'prefix': st.sampled_from([0, 0, 1, 2, 5]),
+      # non-default module options (all keep the checked relations intact)
+      'use_bias': st.sampled_from([True, True, False]),
+      'normalize_qk': st.sampled_from([False, False, True]),
+      'inert_dropout': st.booleans(),
       'seed': st.integers(0, 2**16)})
+
+
+def mha_opts(case):
+  o = {}
+  if not case.get('use_bias', True):
+    o['use_bias'] = False
+  if case.get('normalize_qk', False):
+    o['normalize_qk'] = True
+  if case.get('inert_dropout', False):
+    o.update(dropout_rate=0.5, deterministic=True)
+  return o
+
+
+def copy_linen_params(nm, params):
+  """linen {layer: {param: value}} -> attributes of the NNX module."""
+  for name, sub in params.items():
+    lay = getattr(nm, name)
+    for pname, val in sub.items():
+      getattr(lay, pname).value = jnp.asarray(val)
 
 
 @clause('decode_vs_full', strategy=attn_case, quick=64, thorough=5000,
@@ -136,9 +159,11 @@ def decode_vs_full(case, ctx):
   dt = dict(dtype=jnp.float64, param_dtype=jnp.float64)
   if case['api'] == 'linen':
     full = nn.MultiHeadDotProductAttention(num_heads=H, qkv_features=H * hd,
-                                           out_features=F, decode=False, **dt)
+                                           out_features=F, decode=False, **dt,
+                                           **mha_opts(case))
     dec = nn.MultiHeadDotProductAttention(num_heads=H, qkv_features=H * hd,
-                                          out_features=F, decode=True, **dt)
+                                          out_features=F, decode=True, **dt,
+                                          **mha_opts(case))
     with sut('init'):
       v = unfreeze(dec.init(KEY(0), x))
       params = randomize(v['params'], rng)
@@ -154,7 +179,8 @@ def decode_vs_full(case, ctx):
   else:
     full = nnx.MultiHeadAttention(num_heads=H, in_features=F,
                                   qkv_features=H * hd, out_features=F,
-                                  decode=False, rngs=nnx.Rngs(0), **dt)
+                                  decode=False, rngs=nnx.Rngs(0), **dt,
+                                  **mha_opts(case))
     with sut('nnx init'):
       st_ = nnx.state(full, nnx.Param)
       flat = dict(nnx.to_flat_state(st_))
@@ -163,7 +189,8 @@ def decode_vs_full(case, ctx):
       nnx.update(full, nnx.from_flat_state(flat))
       dec = nnx.MultiHeadAttention(num_heads=H, in_features=F,
                                    qkv_features=H * hd, out_features=F,
-                                   decode=True, rngs=nnx.Rngs(0), **dt)
+                                   decode=True, rngs=nnx.Rngs(0), **dt,
+                                   **mha_opts(case))
       nnx.update(dec, nnx.state(full, nnx.Param))
       dec.init_cache(x.shape, dtype=jnp.float64)
       pre = min(case.get('prefix', 0), T)
@@ -181,7 +208,7 @@ def decode_vs_full(case, ctx):
           'the causal-masked whole-sequence call; max diff '
           f'{np.max(np.abs(np.asarray(y_dec) - np.asarray(y_full)))}')
   require(idx == T, f'cache index {idx} after {T} tokens')
-  ctx.note(labels=[case['api'], f'T{T}'] + (
+  ctx.note(labels=[case['api'], f'T{T}'] + sorted(mha_opts(case)) + (
       ['reinit-cache'] if case['api'] == 'nnx' and case.get('prefix') else []),
            nontrivial=T >= 3)
 
@@ -193,10 +220,16 @@ def decode_vs_full(case, ctx):
             'heads': st.integers(1, 2), 'feat': st.integers(1, 3),
             'T': st.integers(2, 5), 'kind': st.sampled_from(
                 ['padding', 'causal', 'random']),
+            'use_bias': st.sampled_from([True, True, False]),
+            'normalize_qk': st.sampled_from([False, False, True]),
+            'inert_dropout': st.booleans(),
+            # keys/values come from a second input (cross attention)
+            'cross': st.booleans(),
             'seed': st.integers(0, 2**16)}),
         quick=160, thorough=8000, quick_shards=8, thorough_shards=16,
         x64=True, shrink=False,
-        rule='paired inputs that differ only at keys/values excluded by the '
+        rule='(self or cross attention; use_bias, normalize_qk, inactive '
+        'dropout on/off) paired inputs that differ only at keys/values excluded by the '
         'mask (padding mask, causal mask, random mask with >=1 allowed key): '
         'attention outputs at every query position whose allowed keys are '
         'untouched are bit-equal; non-trivial = >=1 perturbed position')
@@ -225,30 +258,42 @@ def mask_non_interference(case, ctx):
     pert[:, T - 1] = True
   x2[pert] = x2[pert] + rng.uniform(1.0, 2.0)
   dt = dict(dtype=jnp.float64, param_dtype=jnp.float64)
+  cross = case.get('cross', False) and case['kind'] != 'causal'
+  xq = rnd(rng, (2, T, F)) if cross else None
+  def args(xkv):
+    return (jnp.asarray(xq), jnp.asarray(xkv)) if cross else (
+        jnp.asarray(xkv),)
   if case['api'] == 'linen':
     m = nn.MultiHeadDotProductAttention(num_heads=H, qkv_features=H * 2,
-                                        out_features=F, **dt)
+                                        out_features=F, **dt,
+                                        **mha_opts(case))
     with sut('attention'):
-      v = unfreeze(m.init(KEY(0), jnp.asarray(x1)))
+      v = unfreeze(m.init(KEY(0), *args(x1)))
       v = {'params': randomize(v['params'], rng)}
-      y1 = np.asarray(m.apply(v, jnp.asarray(x1), mask=jnp.asarray(mask)))
-      y2 = np.asarray(m.apply(v, jnp.asarray(x2), mask=jnp.asarray(mask)))
+      y1 = np.asarray(m.apply(v, *args(x1), mask=jnp.asarray(mask)))
+      y2 = np.asarray(m.apply(v, *args(x2), mask=jnp.asarray(mask)))
   else:
     m = nnx.MultiHeadAttention(num_heads=H, in_features=F, qkv_features=H * 2,
                                out_features=F, decode=False,
-                               rngs=nnx.Rngs(case['seed']), **dt)
+                               rngs=nnx.Rngs(case['seed']), **dt,
+                               **mha_opts(case))
     with sut('nnx attention'):
-      y1 = np.asarray(m(jnp.asarray(x1), mask=jnp.asarray(mask)))
-      y2 = np.asarray(m(jnp.asarray(x2), mask=jnp.asarray(mask)))
+      y1 = np.asarray(m(*args(x1), mask=jnp.asarray(mask)))
+      y2 = np.asarray(m(*args(x2), mask=jnp.asarray(mask)))
   # queries whose own input changed are excluded; all others must be equal
   unaffected = ~pert
+  if cross:
+    # queries are untouched; a query row with no allowed key at all is not a
+    # valid position (its softmax is over nothing)
+    unaffected = mask_b.any(axis=(1, 3))
   if case['kind'] == 'causal':
     unaffected = np.ones((2, T), bool)
     unaffected[:, T - 1] = False
   require(np.array_equal(y1[unaffected], y2[unaffected]), lambda: 'outputs at '
           'positions that cannot see the perturbed keys changed; max diff '
           f'{np.max(np.abs(y1[unaffected] - y2[unaffected]))}')
-  ctx.note(labels=[case['api'], case['kind']], nontrivial=bool(pert.any()))
+  ctx.note(labels=[case['api'], case['kind']] + sorted(mha_opts(case)) + (
+      ['cross'] if cross else []), nontrivial=bool(pert.any()))
 
 
 # ----------------------------------------------------------------------------
@@ -533,7 +578,7 @@ def attention_linen_vs_nnx(case, ctx):
   mask[..., np.arange(T), np.arange(T)] = True
   dt = dict(dtype=jnp.float64, param_dtype=jnp.float64)
   lm = nn.MultiHeadDotProductAttention(num_heads=H, qkv_features=H * hd,
-                                       out_features=F, **dt)
+                                       out_features=F, **dt, **mha_opts(case))
   with sut('linen'):
     v = unfreeze(lm.init(KEY(0), x))
     v = {'params': randomize(v['params'], rng)}
@@ -541,14 +586,12 @@ def attention_linen_vs_nnx(case, ctx):
   with sut('nnx'):
     nm = nnx.MultiHeadAttention(num_heads=H, in_features=F,
                                 qkv_features=H * hd, out_features=F,
-                                decode=False, rngs=nnx.Rngs(0), **dt)
-    for name in ('query', 'key', 'value', 'out'):
-      lay = getattr(nm, name)
-      lay.kernel.value = v['params'][name]['kernel']
-      lay.bias.value = v['params'][name]['bias']
+                                decode=False, rngs=nnx.Rngs(0), **dt,
+                                **mha_opts(case))
+    copy_linen_params(nm, v['params'])
     yn = nm(x, mask=jnp.asarray(mask))
   # one of the two APIs evaluates the softmax in float32 even with
   # dtype=float64 (differences ~1e-8): agreement is demanded at float32 level
   require(close(yl, yn, dict(rtol=1e-6, atol=1e-6)), 'nnx.MultiHeadAttention '
           'differs from linen on the same parameters')
-  ctx.note(nontrivial=H >= 2)
+  ctx.note(labels=sorted(mha_opts(case)), nontrivial=H >= 2)
